@@ -81,9 +81,10 @@ func runMCParse(c *Ctx, maxLen int, types []string) ([]ParseVerdict, map[string]
 	all := strings.Split(strings.TrimRight(string(lines), "\n"), "\n")
 	shards := 12
 	var mu sync.Mutex
+	aborted := false
 	var wg sync.WaitGroup
 	var verdicts []ParseVerdict
-	total := map[string]any{"buffers": 0.0, "wellformed_first": 0.0, "unmarshals": 0.0, "accepted": 0.0}
+	total := map[string]any{"buffers": 0.0, "wellformed_first": 0.0, "unmarshals": 0.0, "accepted": 0.0, "skip_accepts_malformed": 0.0}
 	for s := 0; s < shards; s++ {
 		lo, hi := len(all)*s/shards, len(all)*(s+1)/shards
 		if lo == hi {
@@ -109,6 +110,9 @@ func runMCParse(c *Ctx, maxLen int, types []string) ([]ParseVerdict, map[string]
 				return
 			}
 			verdicts = append(verdicts, vs...)
+			if a, _ := sum["aborted_after_hang"].(bool); a {
+				aborted = true
+			}
 			for k := range total {
 				if x, ok := sum[k].(float64); ok {
 					total[k] = total[k].(float64) + x
@@ -117,7 +121,7 @@ func runMCParse(c *Ctx, maxLen int, types []string) ([]ParseVerdict, map[string]
 		}(s, lo, hi)
 	}
 	wg.Wait()
-	if int64(total["buffers"].(float64)) != res.Generated-1 {
+	if int64(total["buffers"].(float64)) != res.Generated-1 && !aborted {
 		c.R.InternalErr("MC_Parse: replayed %v buffers, TLC generated %d states", total["buffers"], res.Generated)
 	}
 	return verdicts, total, res
